@@ -1159,3 +1159,88 @@ def work_C16(run, rng, budget):
 WORK = {"C01": work_C01, "C02": work_C02, "C03": work_C03, "C04": work_C04, "C05": work_C05, "C06": work_C06,
         "C07": work_C07, "C08": work_C08, "C09": work_C09, "C10": work_C10, "C11": work_C11, "C12": work_C12,
         "C13": work_C13, "C15": work_C15, "C16": work_C16}
+
+
+# =====================================================================================
+# corpus of minimised past failures: replayed first for the properties they belong to
+# =====================================================================================
+
+def work_corpus(run, prop, rng):
+    from . import corpus as CP
+    for c in CP.cases(prop):
+        run.stats["corpus_cases"] += 1
+        kind = c["kind"]
+        if kind == "mol":
+            m = CP.mol_of(c)
+            g = mol_graph(m)
+            s0, err = safe(tucan_of, mol_graph(m))
+            if err is not None:
+                run.fail("pipeline-raises", f"corpus {c['id']}: {type(err).__name__}", {"corpus": c["id"]})
+                continue
+            c0, _ = safe(canonicalize_molecule, mol_graph(m))
+            for _ in range(6):
+                m2, perm = G.relabel(m, rng)
+                s2, _ = safe(tucan_of, any_listing(mol_graph(m2), rng))
+                if prop in ("C01",) and s2 != s0:
+                    run.fail("string-differs-under-relabelling", f"corpus {c['id']}: {s0!r} vs {s2!r}",
+                             {"mol": mol_repr(m), "relabelled": mol_repr(m2), "perm": perm})
+                if prop == "C04":
+                    c2, _ = safe(canonicalize_molecule, mol_graph(m2))
+                    if c0 is not None and c2 is not None and canon_maps(c2) != canon_maps(c0):
+                        run.fail("canonical-graph-differs-under-relabelling", f"corpus {c['id']}",
+                                 {"mol": mol_repr(m), "relabelled": mol_repr(m2), "perm": perm})
+            if prop in ("C03", "C02", "C05"):
+                h, err = safe(graph_from_tucan, s0)
+                if h is None or not ISO.isomorphic(g, h):
+                    run.fail("parsed-graph-not-isomorphic", f"corpus {c['id']}: parse({s0!r})", {"mol": mol_repr(m), "string": s0})
+                atoms = [(a["sym"], a.get("mass"), a.get("rad")) for a in m.atoms]
+                bad = VAL.validate(s0, atoms, len(m.bonds))
+                if bad and prop == "C05":
+                    run.fail("emitted-string-violates-grammar-or-layout", f"corpus {c['id']}: {s0!r}: {bad[0]}", {"string": s0})
+            queue_pipeline_ops(run, g)
+        elif kind in ("v3000_atoms", "v2000_text"):
+            from . import corpus as CP2
+            text = CP2.v3000_text(c) if kind == "v3000_atoms" else c["text"]
+            m = CP.mol_of(c)
+            line, real, info = R.op_moltext(text)
+            run.corr(line, real, "exact")
+            gg = info.get("graph")
+            if gg is None:
+                run.fail("conformant-molfile-rejected", f"corpus {c['id']}: {real}", {"text": text})
+                continue
+            why = compare_read(gg, m)
+            if why and prop in ("C07", "C08"):
+                run.fail("v3000-read-differs-from-file" if kind == "v3000_atoms" else "v2000-read-differs-from-file",
+                         f"corpus {c['id']}: {why}", {"mol": mol_repr(m), "text": text})
+            if prop in ("C05", "C06"):
+                s, _ = safe(tucan_of, gg)
+                s_ref, _ = safe(tucan_of, mol_graph(m))
+                if s != s_ref:
+                    run.fail("non-identity-data-changes-the-string" if prop == "C06" else "emitted-string-violates-grammar-or-layout",
+                             f"corpus {c['id']}: {s!r} vs {s_ref!r}", {"text": text})
+        elif kind == "tucan_reject":
+            t = CP.tucan_text(c)
+            line, real, _ = R.op_parse(t)
+            run.corr(line, real, "observable", meta={"string": t})
+            if real != "ERR TucanParserException":
+                run.fail("rejected-with-foreign-exception" if real.startswith("ERR") else "invalid-string-accepted",
+                         f"corpus {c['id']}: {real[:80]}", {"string": t})
+        elif kind == "tucan_accept":
+            t = CP.tucan_text(c)
+            line, real, info = R.op_parse(t)
+            run.corr(line, real, "observable", meta={"string": t})
+            gg = info.get("graph")
+            if gg is None:
+                run.fail("valid-sentence-rejected", f"corpus {c['id']}: {real}", {"string": t})
+                continue
+            if "atoms" in c:
+                got = [gg.nodes[k].get("element_symbol") for k in sorted(gg.nodes)]
+                if got != c["atoms"] or ("mass_on" in c and "mass" not in gg.nodes[c["mass_on"]]):
+                    run.fail("parsed-graph-differs-from-denotation", f"corpus {c['id']}: {got}", {"string": t})
+            if prop in ("C11", "C14", "C05"):
+                n1, _ = safe(norm, t)
+                n2, _ = safe(norm, n1) if n1 else (None, None)
+                if n1 is None or n1 != n2:
+                    run.fail("normalisation-not-idempotent", f"corpus {c['id']}: {n1!r} -> {n2!r}", {"string": t})
+                if n1 and prop == "C05" and VAL.validate(n1):
+                    run.fail("emitted-string-violates-grammar-or-layout", f"corpus {c['id']}: {n1!r}", {"string": n1})
